@@ -13,6 +13,9 @@ def add_cons(rep, prop):
 
 def run(tier, seed):
     rep = Report("C17", tier, seed, "other")
+    from .. import normalize, reads
+    normalize.add_obligations(rep, "C17")
+    reads.add_order_obligations(rep, "C17")
     try:
         add_cons(rep, "C17")
     except ImportError:
@@ -23,7 +26,8 @@ def run(tier, seed):
                                    "constructed lines: up to three segments (indent 0-3, marker > - * 1. 12), 1-4 blanks) + leaf; distinct = distinct token signatures", items=oracles2.c17_marker_cases(), universe="constructed marker/blank lines"))
     rep.bounded.append(bounded.run("vf.oracles2:c17_twoline", "list", 0, ["commonmark"], "rules_block.blockquote / list_block (continuation lines)", "same equivalence on the second line of an open container",
                                    "7 first lines x up to two (indent, marker, blanks) segments x 2 leaves", items=oracles2.c17_twoline_cases(), universe="constructed two-line documents"))
-    rep.explanation = ("Mixed. Deductive (when contracts.cons is present): the physical-column invariant bsCount + sCount == PhysCol(first content char) of the block quote marker code. "
+    rep.explanation = ("Mixed. Deductive: side conditions of the substitution lemma for the normalize rule (the regex literals read from the source match CR, CRLF as one unit, and NUL; replacements contain neither; the substitutions are chained from state.src back to state.src) "
+                       "and ORDER normalize-first, so no CR or NUL reaches any later rule; the physical-column invariant of the block quote marker code when contracts.cons is present. "
                        "Bounded: the equivalences themselves as relational contracts on parse/render over the line universe and the constructed marker lines.")
     rep.trusted_base = STD_TRUST
     rep.assumptions = ["re.sub substitution lemma for normalize (assumed)"]
